@@ -555,6 +555,13 @@ def rule_value(ctx):
                     'all value blocks', floor=1)
     p = ctx.project
     f = p.func(RANGES, 'Ranges.value')
+    # the selection loop may live in a private helper of the property
+    from ..util import with_helpers
+    for g_ in with_helpers(ctx, f):
+        if any(isinstance(n, ast.Call) and call_name(n) == '_split'
+               for n in own_nodes(g_)):
+            f = g_
+            break
     rr.instances += 1
     parents = {}
     for x in ast.walk(f.node):
